@@ -45,6 +45,11 @@ def fold_check(chk, rule, site, qn, dim_expr, base_name, what, use_axis_to_dim=F
                 return
             want = [d for d in range(ndim) if d != axis % ndim]
             n += 1
+            if isinstance(got, int) and not isinstance(got, bool):
+                got = [got]  # dim=<int>: a single reduced dimension
+            if not isinstance(got, (list, tuple)) or not all(isinstance(d, int) and not isinstance(d, bool) for d in got):
+                chk.unknown(rule, site, f"{qn}: reduction dims evaluate to `{got}` for ndim={ndim}, axis={axis}")
+                return
             if sorted(d % ndim for d in got) != want or len(got) != len(want):
                 bad.append((ndim, axis, got, want))
     if bad:
@@ -196,11 +201,13 @@ def run(chk):
             bexpr = f"group({bname}, axis, group_size)" if grouped else bname
             want = [f"self.optimize({bexpr}, bits, axis)"]
             if cname == "AffineOptimizer":
-                ok = isinstance(e, ast.Tuple) and all(U(x).startswith(want[0]) for x in e.elts)
+                # the pair returned by optimize, untouched: anything applied to it on the way out (a clamp of the zero-point, a floor
+                # of the scale) changes the range the optimizer chose
+                ok = isinstance(e, ast.Tuple) and [U(x) for x in e.elts] == [f"{want[0]}[0]", f"{want[0]}[1]"]
             else:
                 ok = txt == want[0]
             chk.require("C03.R5" if cname == "AffineOptimizer" else "C03.R4", f"{ci.mod.rel}:{p.end[2]}", ok, f"{cname}.__call__ [{'grouped' if grouped else 'plain'}] returns optimize({bexpr}, bits, axis): `{txt[:90]}`", f"{cname}.__call__", f"wrapper forwards base ({'grouped' if grouped else 'plain'})",
-                        "grouped quantization: ranges are computed on the un-grouped tensor (one scale per row instead of per group)" if cname == "AffineOptimizer" else "any weight")
+                        "grouped quantization: ranges are computed on the un-grouped tensor (one scale per row instead of per group), or the optimizer's scale / zero-point is altered on the way out (a clamped zero-point saturates one-sided groups)" if cname == "AffineOptimizer" else "any weight")
     for node in ast.walk(fn):
         if isinstance(node, ast.Call) and isinstance(node.func, ast.Attribute) and node.func.attr in ("to", "float", "half", "double", "type") and (node.func.attr != "to" or any("float" in U(a) for a in node.args)):
             chk.bad("C03.R4", f"{oci.mod.rel}:{node.lineno}", qn, "fixed dtype cast in scale", f"{qn}: `{U(node)[:50]}` casts to a fixed float dtype", "float16/bfloat16 weights")
